@@ -377,8 +377,11 @@ def _main(prop, pid, tier, seed, replay, t0):
                 if fn.endswith(".json"):
                     payloads.append(json.load(open(os.path.join(corpus_dir, fn)))["case"])
         for f in findings:
-            if "witness" in f:
-                payloads.append(f["witness"])
+            w = f.get("witnesses", {}).get(pid)
+            if w is None and "witness" in f and f.get("properties", [pid])[0] == pid:
+                w = f["witness"]
+            if w is not None:
+                payloads.append(w)
         payloads.extend(prop.cases(rng, tier))
     cases = [Case(p) for p in payloads]
 
